@@ -15,6 +15,8 @@ demo; d1=$?
 tail -3 _vb/demo.out > _vb/demo.tail
 cd _vb/src/tests
 ls | grep '^test' | grep -v '\.' | xargs -P 8 -I{} bash -c 'timeout 1800 ./{} > ../../{}.out 2>&1'
+# some executables draw random data and abort now and then on the unchanged tree too (testmatrix): give them two more tries
+for rep in 1 2; do for t in testmatrix; do timeout 1800 ./$t >> ../../$t.out 2>&1; done; done
 cd $WT
 python3 - "$WT/_vb" /verif/scripts/baseline_names.json $d0 $d1 <<'PY'
 import sys, glob, json, re
